@@ -135,3 +135,26 @@ def wit_d13():
 
 SIGNATURES["D13-C15"] = sig_d13
 WITNESSES["D13-C15"] = wit_d13
+
+def sig_d19(info, t):
+    b = _base(t)
+    if not b or (b.get("np") or [None])[0] != "clusters":
+        return False
+    diff = info.get("differing_arms"); re = info.get("readded_with_stored_rows_since_training")
+    return bool(diff) and re is not None and set(diff) <= set(re)
+
+def wit_d19():
+    from mabwiser.mab import MAB, LearningPolicy, NeighborhoodPolicy
+    X = [[0.0], [1.0], [2.0], [3.0], [3.0], [0.0], [3.0], [1.0], [2.0], [3.0]]
+    ds = [3, 3, 6, 3, 3, 6, 6, 6, 3, 6]
+    rs = [1.0] + [0.0] * 9
+    m = MAB([3, 6, 4], LearningPolicy.UCB1(alpha=1.0), NeighborhoodPolicy.Clusters(n_clusters=2), seed=11)
+    m.fit(ds, rs, X)
+    m.remove_arm(3); m.add_arm(3)
+    e1 = m.predict_expectations([[0.0]])[3]
+    m.partial_fit([6], [0.0], [[2.0]])
+    e2 = m.predict_expectations([[0.0]])[3]
+    return e1 == 0 and e2 != 0
+
+SIGNATURES["D19-C12"] = sig_d19
+WITNESSES["D19-C12"] = wit_d19
